@@ -243,4 +243,26 @@ def r9_closure_inline(text, log):
         # loop: re-lex and continue with the same closure (or the next one)
 
 
-RULES = {"R9": r9_closure_inline}
+def r4u_name_wildcard_loop_var(text, log):
+    """`for _ in E { B }`  ->  `for vx_itN in E { B }`: the wildcard loop pattern is given a fresh name (alpha-renaming of
+    an unused binding; `vx_itN` is checked not to occur in the item) so that loop invariants can refer to the iteration."""
+    n = 0
+    while True:
+        st = sig(lex(text))
+        hit = None
+        for i, t in enumerate(st):
+            if t.kind == "ident" and t.text == "for" and i + 2 < len(st) and st[i + 1].text == "_" and st[i + 2].text == "in":
+                hit = i
+                break
+        if hit is None:
+            return text
+        n += 1
+        name = "vx_it%d" % n
+        if any(t.kind == "ident" and t.text == name for t in st):
+            raise RewriteError("R4u: identifier %s already occurs" % name)
+        u = st[hit + 1]
+        text = text[:u.start] + name + text[u.end:]
+        log["R4u wildcard-loop-var named"] = log.get("R4u wildcard-loop-var named", 0) + 1
+
+
+RULES = {"R9": r9_closure_inline, "R4u": r4u_name_wildcard_loop_var}
